@@ -11,8 +11,8 @@ import LitexModel.Verilog.Expr
       pattern `value & (2^w - 1)` (right in every signed context, also for the most negative value — `-w'sd|v|`
       would not be) and an unsigned one as `w'd|v|` with a leading `-` for negative values; it reports `node.signed`;
     * `_generate_operator` promotes an operand it believes unsigned with `$signed({1'd0, r})` when the other
-      one is believed signed (not for `<<<`/`>>>`), and reports `s1 or s2` for arithmetic/bitwise/shift operators
-      and *unsigned* for comparisons (as Verilog does);
+      one is believed signed (not for `<<<`/`>>>`), and reports `s1 or s2` for arithmetic/bitwise operators,
+      `s1` for shifts (fix of C01-shift-reported-signed) and *unsigned* for comparisons — as Verilog does;
     * `_generate_slice` appends `[hi:lo]` / `[i]`, nothing for a 1-bit operand (which is wrapped in `{…}` when it
       is signed, so that the text stays an unsigned view), and reports unsigned (a Verilog part-select is unsigned);
     * `_generate_cat` reverses the list, `_generate_replicate` prints `{n{v}}`; both report unsigned.
@@ -56,7 +56,7 @@ def printE : Expr → VExpr × Bool
   | .op2 o a b =>
     let r1 := printE a
     let r2 := printE b
-    if o.isShift then (.bin (vop o) r1.1 r2.1, r1.2 || r2.2)
+    if o.isShift then (.bin (vop o) r1.1 r2.1, r1.2)
     else (.bin (vop o) (if r2.2 && !r1.2 then toSignedV r1.1 else r1.1)
                        (if r1.2 && !r2.2 then toSignedV r2.1 else r2.1), !o.isCmp && (r1.2 || r2.2))
   | .mux c a b =>
@@ -76,21 +76,6 @@ def printList : List Expr → List VExpr
   | [] => []
   | e :: es => (printE e).1 :: printList es
 end
-
-/-- Where the printer's sign flag can still differ from the type Verilog gives the text: a shift reports
-    `s1 or s2`, Verilog takes the type of the shifted operand alone (`u <<< s` with a signed amount `s`).
-    `signFlagsOk e`: on every path along which signedness propagates to the root of `e` (not below comparisons,
-    `Cat`, `Replicate`, `Mux` conditions, shift amounts) no shift has a signed amount and an unsigned operand. -/
-def signFlagsOk : Expr → Bool
-  | .const _ _ _ => true
-  | .sig _ _ _ => true
-  | .op1 _ a => signFlagsOk a
-  | .op2 o a b =>
-    o.isCmp || (if o.isShift then signFlagsOk a && (!(printE b).2 || (printE a).2) else signFlagsOk a && signFlagsOk b)
-  | .mux _ a b => signFlagsOk a && signFlagsOk b
-  | .slice a _ _ => signFlagsOk a
-  | .cat _ => true
-  | .rep _ _ => true
 
 /-- The `(width, signed)` the Verilog text assigns an expression to when it is the right-hand side of an
     assignment to a `lw`-bit target, compared with what `Evaluator.assign` stores: bits of the stored value. -/
